@@ -121,6 +121,37 @@ func (fr *evalFrame) resolve(v ssa.Value) ssa.Value {
 func (fr *evalFrame) origin(v ssa.Value) (*evalFrame, ssa.Value) {
 	for depth := 0; depth < 16; depth++ {
 		v = fr.resolve(v)
+		// a variable that lives in a cell because a closure captures it: what was (once) stored there
+		if ld, isLd := v.(*ssa.UnOp); isLd && ld.Op == token.MUL {
+			switch cell := ld.X.(type) {
+			case *ssa.Alloc:
+				if !isAggregate(cell) {
+					if sv := soleStoredValue(cell); sv != nil {
+						v = sv
+						continue
+					}
+				}
+			case *ssa.FreeVar:
+				if fr.parent != nil && fr.call != nil {
+					if mc, ok := fr.call.Common().Value.(*ssa.MakeClosure); ok {
+						moved := false
+						for i, fv := range fr.fn.FreeVars {
+							if fv == cell && i < len(mc.Bindings) {
+								if al, ok := mc.Bindings[i].(*ssa.Alloc); ok {
+									if sv := soleStoredValue(al); sv != nil {
+										v, fr, moved = sv, fr.parent, true
+									}
+								}
+							}
+						}
+						if moved {
+							continue
+						}
+					}
+				}
+			}
+			return fr, v
+		}
 		p, ok := v.(*ssa.Parameter)
 		if !ok || fr.parent == nil || fr.call == nil {
 			return fr, v
@@ -160,7 +191,7 @@ func (ev *evaluator) eval(fr *evalFrame, v ssa.Value, depth int) (interface{}, b
 	}
 	if ld, ok := v.(*ssa.UnOp); ok && ld.Op == token.MUL && fr.mem != nil {
 		if fa, ok := ld.X.(*ssa.FieldAddr); ok {
-			if x, ok := fr.mem[memKey{fr.resolve(fa.X), fa.Field}]; ok {
+			if x, ok := fr.mem[memKey{fr.memBase(fa.X), fa.Field}]; ok {
 				if _, unknown := x.(unknownValue); unknown {
 					return nil, false
 				}
@@ -172,6 +203,15 @@ func (ev *evaluator) eval(fr *evalFrame, v ssa.Value, depth int) (interface{}, b
 		return x, true
 	}
 	switch x := v.(type) {
+	case *ssa.Function:
+		return x, true // a function value
+	case *ssa.MakeClosure:
+		return x, true
+	case *ssa.ChangeType:
+		return ev.eval(fr, x.X, depth+1)
+	case *ssa.Alloc:
+		// the address of an object this activation allocated: not nil, and only that is known
+		return absPtr{"object allocated by " + fname(x.Parent()), false}, true
 	case *ssa.FreeVar:
 		// a value captured by value (the receiver of a bound method x.M): what the closure was made with
 		if fr.call != nil && fr.parent != nil {
@@ -679,6 +719,19 @@ func (ev *evaluator) eval(fr *evalFrame, v ssa.Value, depth int) (interface{}, b
 			return nil, false
 		}
 		callee := x.Common().StaticCallee()
+		if callee == nil && !x.Common().IsInvoke() {
+			// a call through a variable that holds a function: evaluated to the function, then read as that call
+			if fv, ok := ev.eval(fr, x.Common().Value, depth+1); ok {
+				if f, isF := fv.(ssa.Value); isF {
+					if _, isFn := funcValue(f); isFn {
+						cc := *x
+						cc.Call.Value = f
+						return ev.eval(fr, &cc, depth+1)
+					}
+				}
+			}
+			return nil, false
+		}
 		if callee == nil {
 			return nil, false
 		}
@@ -878,6 +931,20 @@ func (ev *evaluator) runFrame(fr *evalFrame, start *ssa.BasicBlock, stop func(b 
 					}
 				}
 			case *ssa.Call:
+				if ev.visit == nil {
+					// a statement call of a helper that can panic (a validation helper) is walked for that outcome
+					callee := x.Common().StaticCallee()
+					if refs := x.Referrers(); callee != nil && (refs == nil || len(*refs) == 0) && ev.inline != nil && callee.Blocks != nil && ev.inline(callee) && hasPanicBlock(callee) {
+						if _, handled := ev.leaf(fr, x); !handled {
+							if _, outcome := ev.runCallee(callee, fr, x); outcome == "panic" {
+								return nil, "panic"
+							} else if outcome != "return" {
+								ev.setFail("statement call not walkable: " + fname(callee))
+								return nil, "fail"
+							}
+						}
+					}
+				}
 				if ev.visit != nil {
 					ev.visit(fr, x)
 					callee := x.Common().StaticCallee()
@@ -898,9 +965,9 @@ func (ev *evaluator) runFrame(fr *evalFrame, start *ssa.BasicBlock, stop func(b 
 						fr.mem = map[memKey]interface{}{}
 					}
 					if v, ok := ev.eval(fr, x.Val, 0); ok {
-						fr.mem[memKey{fr.resolve(fa.X), fa.Field}] = v
+						fr.mem[memKey{fr.memBase(fa.X), fa.Field}] = v
 					} else {
-						fr.mem[memKey{fr.resolve(fa.X), fa.Field}] = unknownValue{}
+						fr.mem[memKey{fr.memBase(fa.X), fa.Field}] = unknownValue{}
 					}
 				}
 				// a local variable that lives in memory, or a part of a local struct or array
@@ -1775,4 +1842,36 @@ func (ev *evaluator) setPath(fr *evalFrame, cur interface{}, t types.Type, steps
 		return absArray{c.t, ne}, true
 	}
 	return nil, false
+}
+
+
+var hasPanicCache = map[*ssa.Function]bool{}
+
+func hasPanicBlock(fn *ssa.Function) bool {
+	if v, ok := hasPanicCache[fn]; ok {
+		return v
+	}
+	v := false
+	for _, b := range fn.Blocks {
+		if _, ok := b.Instrs[len(b.Instrs)-1].(*ssa.Panic); ok {
+			v = true
+		}
+	}
+	hasPanicCache[fn] = v
+	return v
+}
+
+// memBase: the object a field address is based on — through phis as the frame resolves them, and through the
+// cell a captured parameter lives in (so that stores made by a function whose parameter a closure captures
+// are filed under the parameter itself).
+func (fr *evalFrame) memBase(v ssa.Value) ssa.Value {
+	v = fr.resolve(v)
+	if ld, ok := v.(*ssa.UnOp); ok && ld.Op == token.MUL {
+		if cell, ok := ld.X.(*ssa.Alloc); ok && !isAggregate(cell) {
+			if sv := soleStoredValue(cell); sv != nil {
+				return fr.resolve(sv)
+			}
+		}
+	}
+	return v
 }
